@@ -173,33 +173,35 @@ Definition span_shows (p m q msg out : str) : bool :=
 
 Definition no_lf (t : str) : Prop := existsb is_lf t = false.
 
-Definition span_render_ok (fx : bool) (p m q : str) : Prop :=
+Definition span_render_ok (fx : fixes) (p m q : str) : Prop :=
   forall msg, no_lf msg ->
     exists out, render_span fx (p ++ m ++ q) (blen p, blen p + blen m) msg = Ok out /\
                 span_shows p m q msg out = true.
 
 (* Known classes of the span rendering (findings C10-K1 .. C10-K4):
    K1 a lone CR before the start offset in its line, removed from the shown text;
-   K2 (code as shipped only, fx = false; repaired by fixes/C10-1-continued-line-visualize.patch)
+   K2 (only without fix_continued, i.e. without fixes/C10-1-continued-line-visualize.patch)
       the text is visualised (span starts/ends with CR or LF) and a further line is shown: that
       line is emitted raw, with its CR/LF, which breaks the row layout;
    K3 the span ends right after a LF and text follows: the following line is shown, labelled with
       the number of the line before it;
-   K4 the empty span at the end of an input whose last line is not empty: no text is shown and the
+   K4 (only without fix_eoi_line, i.e. without fixes/C10-2-empty-span-at-end-line.patch)
+      the empty span at the end of an input whose last line is not empty: no text is shown and the
       marker is not under the reported column. *)
 Definition has_crlf (t : str) : bool := existsb is_crlf t.
 Definition ends_lf (m : str) : bool := match m with [] => false | c :: r => is_lf (last r c) end.
-Definition KnownClass_span (fx : bool) (p m q : str) : bool :=
+Definition KnownClass_span (fx : fixes) (p m q : str) : bool :=
   let s := p ++ m ++ q in
   let meet := lines_meeting s (blen p) (blen p + blen m) in
   (negb (span_vis m) && existsb (fun c => ceq c CR) (after_last_nl p))
-  || (negb fx && span_vis m && match meet with
+  || (negb (fix_continued fx) && span_vis m && match meet with
                     | r0 :: r1 :: rest =>
                       match slice s (fst (last rest r1)) (snd (last rest r1)) with
                       | Some l2 => has_crlf l2 | None => false end
                     | _ => false end)
   || (ends_lf m && negb (match q with [] => true | _ => false end))
-  || (match m, q with [], [] => negb (match after_last_nl p with [] => true | _ => false end) | _, _ => false end).
+  || (negb (fix_eoi_line fx) &&
+      match m, q with [], [] => negb (match after_last_nl p with [] => true | _ => false end) | _, _ => false end).
 
 (* ------------------------------------------------------------------ runner entry points
    (the specification oracle of the correspondence runs these on the REAL output) *)
